@@ -10,18 +10,20 @@ CONSTANTS MaxRuns, NMapped
 VARIABLES f, hist, first
 vars == <<f, hist, first>>
 Dests == {"valid_path", "output_dir"}
-Init == /\ f \in {[fixed |-> FALSE, rec |-> None3], [fixed |-> TRUE, rec |-> None3]}
+Init == /\ f \in {[fixed |-> FALSE, unk |-> FALSE, rec |-> None3], [fixed |-> FALSE, unk |-> TRUE, rec |-> None3],
+                  [fixed |-> TRUE, unk |-> FALSE, rec |-> None3]}
         /\ hist = <<>> /\ first = f
-Run(dest) == /\ Len(hist) < MaxRuns
-             /\ LET r == AfterValidate(f, dest, NMapped) IN
+Run(dest, rw) ==
+             /\ Len(hist) < MaxRuns
+             /\ LET r == AfterValidate(f, dest, NMapped, rw) IN
                 /\ f' = r.file /\ hist' = Append(hist, [dest |-> dest, kind |-> r.kind, rec |-> r.file.rec])
              /\ UNCHANGED first
-Next == \E d \in Dests : Run(d)
+Next == \E d \in Dests : \E rw \in (IF f.unk THEN BOOLEAN ELSE {FALSE}) : Run(d, rw)
 Spec == Init /\ [][Next]_vars
 \* after the first validation the content is valid for good, and a number once recorded never changes
 InvFixedPoint == Len(hist) >= 1 => f.fixed
 InvRecordStable == \A i, j \in 1..Len(hist) : (i < j /\ hist[i].rec # None3) => hist[j].rec = hist[i].rec
-InvWrittenOnce == \A i \in 2..Len(hist) : hist[i].kind # "written"
+InvWrittenOnce == ~first.unk => \A i \in 2..Len(hist) : hist[i].kind # "written"
 InvRecordTrue == \A i \in 1..Len(hist) : hist[i].rec \in {None3, NMapped}
-Emit == (Len(hist) = MaxRuns) => PrintT(<<"SCN", ToJson([fixed |-> first.fixed, steps |-> hist])>>)
+Emit == (Len(hist) = MaxRuns) => PrintT(<<"SCN", ToJson([fixed |-> first.fixed, unk |-> first.unk, steps |-> hist])>>)
 =============================================================================
